@@ -965,6 +965,11 @@ func caseBatch(c *core.Ctx, r *rand.Rand) {
 	}
 	var got []grp
 	var views [][]metric.BrokerRow
+	if h := handedOut(b, numShards, iv); h != b.Len() {
+		c.Fail("rows-not-of-this-batch-handed-out", fmt.Sprintf("the batch has %d rows, the shard/family iterators hand out %d (-1: they walk into an empty slot)", b.Len(), h))
+		c.Op(fmt.Sprintf("route %d %s", numShards, ik.name), fmt.Sprintf("handed-out %d of %d", h, b.Len()))
+		return
+	}
 	handed := 0
 	it := b.NewShardGroupIterator(int32(numShards))
 	for it.HasRowsForNextShard() {
@@ -1137,8 +1142,12 @@ func caseBatch(c *core.Ctx, r *rand.Rand) {
 }
 
 // handedOut counts the rows the shard/family iterators hand out, without reading any of them.
-func handedOut(b *metric.BrokerBatchRows, numShards int, iv timeutil.Interval) int {
-	n := 0
+func handedOut(b *metric.BrokerBatchRows, numShards int, iv timeutil.Interval) (n int) {
+	defer func() {
+		if recover() != nil {
+			n = -1 // the iterators walked into a slot that holds no row at all
+		}
+	}()
 	it := b.NewShardGroupIterator(int32(numShards))
 	for it.HasRowsForNextShard() {
 		_, fit := it.FamilyRowsForNextShard(iv)
